@@ -21,7 +21,10 @@ RULE = ("case = (packet file of n packets, command, packet index); the recorded 
         "n<=10, else first five + one ellipsis row + last five; parse --packet i shows packet i for 0<=i<n and an "
         "out-of-range message otherwise; exit code 0 and no exception in the click result; yield budget not exceeded. "
         "Enumerated completely: every n in 0..14 (thorough 0..40) x every index 0..n+1, plus truncations of the file "
-        "at every offset of a 3-packet file and the empty file. distinct_nontrivial = distinct (command, n class, "
+        "at every offset of a 3-packet file and the empty file; files of 21-30 packets with --max-items/--max-string; files "
+        "with byte-identical packets; files holding packets of APIDs the definition does not describe (8 patterns x every "
+        "index up to two beyond the listed packets: --packet i must show the i-th packet the command lists without "
+        "--packet); files with foreign prefix bytes under --skip-header-bytes. distinct_nontrivial = distinct (command, n class, "
         "index class, file class) signatures with n class in {0,1,2..5,6..9,10,11,12+}; n=1 describe on an intact file "
         "is the trivial case and is excluded.")
 ASSUMPTIONS = ["what rich renders from the recorded rows/objects is rich's business; the recorders sit at the call boundary",
